@@ -866,3 +866,96 @@ func c03R4(c *Ctx, r *Report) {
 	})
 	r.Floor(rule, nGates, 2, "HasErrors gates in Run")
 }
+
+func init() { props["C03"].Quick = append(props["C03"].Quick, c03R3d) }
+
+// C03.R3d: two count/presence rules of the catalogue that are not type comparisons.
+func c03R3d(c *Ctx, r *Report) {
+	const rule = "C03.R3d"
+	r.Describe(rule, "missing return value and too many array initialisers are reported")
+	bagAdd := c.LookupFn("internal/diagnostics", "(*DiagnosticBag).Add")
+	checkNode := c.LookupFn(pkgTC, "checkNode")
+	val := c.LookupFn(pkgTC, "validateArrayLiteral")
+	if !r.Anchor(rule, bagAdd != nil && checkNode != nil && val != nil, "DiagnosticBag.Add / checkNode / validateArrayLiteral") {
+		return
+	}
+	// (a) case *ast.ReturnStmt: `if n.Result != nil {...} else <reports>`
+	info := checkNode.Info()
+	retT := c.lookupType(pkgAST, "ReturnStmt")
+	okRet := false
+	var pos token.Pos = checkNode.Decl.Pos()
+	for _, ts := range typeSwitchesOn(info, checkNode.Decl.Body, checkNode.ParamNamed("node")) {
+		for _, cc := range caseClauses(ts.Body) {
+			isRet := false
+			for _, t := range caseTypes(info, cc) {
+				if n := namedOf(t); n != nil && retT != nil && n.Obj() == retT {
+					isRet = true
+				}
+			}
+			if !isRet {
+				continue
+			}
+			pos = cc.Pos()
+			for _, s := range cc.Body {
+				ifs, ok := s.(*ast.IfStmt)
+				if !ok {
+					continue
+				}
+				b, isNeq := isBinOp(ifs.Cond, token.NEQ)
+				if !isNeq || !info.Types[b.Y].IsNil() || !strings.HasSuffix(exprStr(b.X), ".Result") || ifs.Else == nil {
+					continue
+				}
+				if nodeCalls(info, ifs.Else, bagAdd.Obj) != nil {
+					okRet = true
+				}
+			}
+		}
+	}
+	r.Check(okRet, rule, checkNode.Name(), "return without value reports when a value is required", c.pos(pos),
+		"the ReturnStmt case has no reporting branch for `Result == nil`: `return;` in a value-returning function would be accepted")
+	// the helper deciding "a value is required" treats only void/unknown (and result-of-void) as not requiring one
+	if h := c.LookupFn(pkgTC, "missingReturnValueType"); r.Anchor(rule, h != nil, "missingReturnValueType") {
+		voidVar := c.lookupObj(pkgTypes, "TypeVoid")
+		unknownVar := c.lookupObj(pkgTypes, "TypeUnknown")
+		bad := false
+		n := 0
+		ast.Inspect(h.Decl.Body, func(nd ast.Node) bool {
+			call, ok := nd.(*ast.CallExpr)
+			if !ok {
+				return true
+			}
+			if sel, ok := ast.Unparen(call.Fun).(*ast.SelectorExpr); ok && sel.Sel.Name == "Equals" && len(call.Args) == 1 {
+				n++
+				o := objOf(h.Info(), call.Args[0])
+				if o != voidVar && o != unknownVar {
+					bad = true
+				}
+			}
+			return true
+		})
+		r.Check(!bad && n >= 2, rule, h.Name(), "only void/unknown exempt a bare return", c.pos(h.Decl.Pos()), "missingReturnValueType exempts a type other than void/unknown from the missing-return-value error")
+	}
+	// (b) validateArrayLiteral: len(lit.Elts) > arrayType.Length reports
+	vinfo := val.Info()
+	okArr := false
+	ast.Inspect(val.Decl.Body, func(nd ast.Node) bool {
+		ifs, ok := nd.(*ast.IfStmt)
+		if !ok || nodeCalls(vinfo, ifs.Body, bagAdd.Obj) == nil {
+			return true
+		}
+		for _, cj := range conjuncts(ifs.Cond) {
+			b, isCmp := isBinOp(cj, token.GTR, token.LSS, token.NEQ)
+			if !isCmp {
+				continue
+			}
+			xs, ys := exprStr(b.X), exprStr(b.Y)
+			lenElts := func(s string) bool { return strings.HasPrefix(s, "len(") && strings.HasSuffix(s, ".Elts)") }
+			length := func(s string) bool { return strings.HasSuffix(s, ".Length") }
+			if (b.Op == token.GTR && lenElts(xs) && length(ys)) || (b.Op == token.LSS && length(xs) && lenElts(ys)) || (b.Op == token.NEQ && (lenElts(xs) && length(ys) || lenElts(ys) && length(xs))) {
+				okArr = true
+			}
+		}
+		return true
+	})
+	r.Check(okArr, rule, val.Name(), "len(Elts) > Length reports", c.pos(val.Decl.Pos()), "an array literal with more elements than the fixed array type holds is not reported")
+}
